@@ -458,11 +458,7 @@ func c07(r *mon.Run) {
 		}}
 	// deep equality over structured values: every pair of a universe of small nested arrays and objects
 	// (different key sets of equal size, null members, nesting, element order)
-	eqTexts := []string{`null`, `1`, `"a"`, `[]`, `{}`, `[null]`, `[1]`, `["a"]`, `[null,null]`, `[1,null]`, `[null,1]`, `[1,"a"]`, `["a",1]`, `[[]]`, `[[null]]`, `[{}]`, `[{"a":null}]`,
-		`{"a":null}`, `{"b":null}`, `{"a":1}`, `{"b":1}`, `{"a":"a"}`, `{"a":[]}`, `{"a":{}}`, `{"a":[null]}`, `{"a":{"b":null}}`, `{"a":{"a":null}}`, `{"a":{"b":1}}`,
-		`{"a":null,"b":null}`, `{"a":null,"c":null}`, `{"b":null,"c":null}`, `{"a":1,"b":null}`, `{"a":null,"b":1}`, `{"a":1,"b":1}`, `{"a":1,"c":1}`, `{"a":1,"b":2}`, `{"a":2,"b":1}`,
-		`{"a":[1,2]}`, `{"a":[2,1]}`, `{"a":{"b":[{"c":null}]}}`, `{"a":{"b":[{"d":null}]}}`, `{"a":{"b":[{"c":null},null]}}`, `[{"a":null},{"b":null}]`, `[{"b":null},{"a":null}]`,
-		`0`, `-0.0`, `1.0`, `"1"`, `true`, `false`, `""`, `"null"`, `[true]`, `[false]`, `{"":null}`, `{"":""}`}
+	eqTexts := eqUniverseTexts
 	eqVals := make([]interface{}, len(eqTexts))
 	for i, tx := range eqTexts {
 		eqVals[i] = docs.J(tx)
@@ -527,3 +523,11 @@ func c07(r *mon.Run) {
 	}
 	r.Exec(ws...)
 }
+
+// eqUniverseTexts: small nested arrays and objects that differ in exactly the ways a hand-written deep equality gets wrong
+// (different key sets of equal size, null members against missing ones, nesting, element order, 0 / -0 / 1.0, "1" / 1).
+var eqUniverseTexts = []string{`null`, `1`, `"a"`, `[]`, `{}`, `[null]`, `[1]`, `["a"]`, `[null,null]`, `[1,null]`, `[null,1]`, `[1,"a"]`, `["a",1]`, `[[]]`, `[[null]]`, `[{}]`, `[{"a":null}]`,
+	`{"a":null}`, `{"b":null}`, `{"a":1}`, `{"b":1}`, `{"a":"a"}`, `{"a":[]}`, `{"a":{}}`, `{"a":[null]}`, `{"a":{"b":null}}`, `{"a":{"a":null}}`, `{"a":{"b":1}}`,
+	`{"a":null,"b":null}`, `{"a":null,"c":null}`, `{"b":null,"c":null}`, `{"a":1,"b":null}`, `{"a":null,"b":1}`, `{"a":1,"b":1}`, `{"a":1,"c":1}`, `{"a":1,"b":2}`, `{"a":2,"b":1}`,
+	`{"a":[1,2]}`, `{"a":[2,1]}`, `{"a":{"b":[{"c":null}]}}`, `{"a":{"b":[{"d":null}]}}`, `{"a":{"b":[{"c":null},null]}}`, `[{"a":null},{"b":null}]`, `[{"b":null},{"a":null}]`,
+	`0`, `-0.0`, `1.0`, `"1"`, `true`, `false`, `""`, `"null"`, `[true]`, `[false]`, `{"":null}`, `{"":""}`}
